@@ -1,4 +1,5 @@
 import PyGam.Model.Exposure
+import PyGam.Model.ExposureStats
 import PyGam.Drv.Common
 namespace PyGam.Drv.C19
 open PyGam PyGam.Drv PyGam.Exposure
@@ -33,6 +34,13 @@ def floatVec? (n : Nat) (l : List String) : Option (Nat → Float) := do
 
 def roundQ (q : Rat) : Rat := ((roundHalfEven q : Int) : Rat)
 
+/-- the normaliser `gammaln(k + 1)` of the Poisson log-pmf as a table `k ↦ norm k` handed in by the harness (SciPy's
+values; it is a parameter of the model); NaN for a count that is not in the table -/
+def tableNorm (ks ns : List Float) (k : Float) : Float :=
+  match (ks.zip ns).find? (fun p => p.1 == k) with
+  | some p => p.2
+  | none => 0.0 / 0.0
+
 /-- operations of the C19 model driver (`C19 <op> <args…>`); `none` ↦ `bad-op`
 
 * `etw n | y… | e…/none | w…/none`      → `rates… | weights…`  (exact rationals, cast = `castF32`)
@@ -43,6 +51,8 @@ def roundQ (q : Rat) : Rat := ((roundHalfEven q : Int) : Rat)
 * `round q`                             → `roundHalfEven q`
 * `loglik n | mu… | y… | e…/none | w…/none` (doubles as bit patterns) → kernel sum (double) `|` counts…
 * `dev y mu` (doubles) → `poissonDev y mu`;  `wdev e y r` → `e * poissonDev (y/e) r` and `poissonDev y (e*r)`
+* `stats n | mu… | y… | e…/none | w…/none | edof | k… | norm…` (doubles) → the statistics of a fit with exposure at
+  fitted rates `mu`: `fitLoglik fitAIC fitAICc fitUBRE fitMcFadden fitMcFaddenAdj fitExplained fitDeviance`
 -/
 def handle : List String → Option String
   | "etw" :: n :: "|" :: rest => do
@@ -90,6 +100,21 @@ def handle : List String → Option String
           let k := loglikKernel castF32F roundHalfEvenF n mu y e w
           let c := loglikCounts castF32F roundHalfEvenF y e w
           some (showFloat k ++ " | " ++ showFloatList (vecToList n c))
+      | _ => none
+  | "stats" :: n :: "|" :: rest => do
+      let n ← n.toNat?
+      match splitBar rest with
+      | [ms, ys, es, ws, [ed], ks, ns] =>
+          let mu ← floatVec? n ms; let y ← floatVec? n ys
+          let e ← optFloats? n es; let w ← optFloats? n ws
+          let edof ← parseFloat? ed
+          let ks ← parseFloats? ks; let ns ← parseFloats? ns
+          if ks.length ≠ ns.length then none else
+          let norm := tableNorm ks ns
+          let c := castF32F; let r := roundHalfEvenF
+          some (showFloatList [fitLoglik c r norm n mu y e w, fitAIC c r norm n mu y e w edof,
+            fitAICc c r norm n mu y e w edof, fitUBRE c n mu y e w edof, fitMcFadden c r norm n mu y e w,
+            fitMcFaddenAdj c r norm n mu y e w edof, fitExplained c n mu y e w, fitDeviance c n mu y e w])
       | _ => none
   | ["dev", y, mu] => do
       let y ← parseFloat? y; let mu ← parseFloat? mu
